@@ -11,6 +11,7 @@ package main
 import (
 	"fmt"
 	"math/bits"
+	"net"
 	"os"
 	"regexp"
 	"sort"
@@ -46,7 +47,7 @@ func main() {
 bindAddr = "127.0.0.1"
 bindPort = %d
 auth.token = "%s"
-allowPorts = [{start=%d,end=%d}]
+allowPorts = [{start=%d,end=%d},{start=12100,end=12499}]
 userConnTimeout = 3
 transport.maxPoolCount = 2
 `, port, token, 12500, 12999))
@@ -67,6 +68,7 @@ transport.maxPoolCount = 2
 			handoverCase(c)
 		}
 	})
+	run.ParallelRange(9000000, run.N(24, 600), 8, existAddWindowCase)
 	if run.OnlyCase < 0 {
 		runIDs(nIDs)
 	}
@@ -507,7 +509,11 @@ func handoverCase(c *h.Case) {
 		// acknowledged while the old session still holds its resources. In the "dropped" form the old
 		// connection is lost first (the teardown starts by itself and is parked), then the client comes back
 		// with its run id: the session whose teardown is unfinished is still the predecessor to wait for.
-		hold := h.NewGate("server.worker.afterDispatcherDone", R, 1)
+		// the teardown is parked either right after the dispatcher ended or after the old connection was closed,
+		// right before pooled connections and proxies are released
+		holdPoint := []string{"server.worker.afterDispatcherDone", "server.worker.beforeClosePool"}[rng.Intn(2)]
+		c.Data["hold_point"] = holdPoint
+		hold := h.NewGate(holdPoint, R, 1)
 		defer hold.Release()
 		type res struct {
 			p   *h.Peer
@@ -517,7 +523,7 @@ func handoverCase(c *h.Case) {
 		if variant == "dropped-held-teardown" {
 			old.Close()
 			if !hold.WaitArrived(10 * time.Second) {
-				run.Inconclusive("afterDispatcherDone gate not reached after the connection was dropped")
+				run.Inconclusive("teardown gate not reached after the connection was dropped")
 				return
 			}
 			time.Sleep(time.Duration(rng.Intn(30)) * time.Millisecond)
@@ -526,7 +532,7 @@ func handoverCase(c *h.Case) {
 		} else {
 			go func() { p, err := mk("S2", R); ch <- res{p, err} }()
 			if !hold.WaitArrived(10 * time.Second) {
-				run.Inconclusive("afterDispatcherDone gate not reached")
+				run.Inconclusive("teardown gate not reached")
 				hold.Release()
 				r := <-ch
 				if r.p != nil {
@@ -544,7 +550,7 @@ func handoverCase(c *h.Case) {
 		}
 		if got != nil && got.err == nil && got.p.LoggedIn() {
 			snapNames := srv.Snapshot().ProxyNames
-			c.Violation("relogin-acknowledged-before-old-teardown", "LoginResp for re-login with run id %s arrived while the previous session's teardown had not started (its proxies are still registered: %v)", R, snapNames)
+			c.Violation("relogin-acknowledged-before-old-teardown", "LoginResp for re-login with run id %s arrived while the previous session's teardown was parked at %s (its proxies are still registered: %v)", R, holdPoint, snapNames)
 		}
 		hold.Release()
 		if got == nil {
@@ -758,4 +764,109 @@ func runIDs(n int) {
 	if len(ids) > 2 {
 		run.Sample(map[string]any{"kind": "run ids", "first": ids[:3]})
 	}
+}
+
+// ---------------------------------------------------------------------------------------------
+// 4. the window between "name not taken" and "name entered": two sessions, one name
+
+// existAddWindowCase parks session A's registration of a name right after the server found the name free, lets
+// session B register the same name completely (other remote port, so nothing else collides), and releases A.
+// Exactly one of them may hold the name afterwards; the other is refused and leaves nothing behind.
+func existAddWindowCase(c *h.Case) {
+	k := c.Idx - 9000000
+	name := fmt.Sprintf("x%d.dup", c.Idx)
+	portA, portB := 12100+2*(k%200), 12101+2*(k%200)
+	mk := func(id string) (*h.Peer, error) {
+		return h.DialPeer(h.PeerOpts{ServerPort: srv.Cfg.BindPort, TCPMux: true, Token: token, AutoWork: true, WorkHandler: h.IdentBackend(id, token, false, false, nil)})
+	}
+	a, err := mk("A")
+	if err != nil || !a.LoggedIn() {
+		run.Inconclusive("exist-add: login failed")
+		return
+	}
+	defer a.Close()
+	b, err := mk("B")
+	if err != nil || !b.LoggedIn() {
+		run.Inconclusive("exist-add: login failed")
+		return
+	}
+	defer b.Close()
+	gate := h.NewGate("server.registerProxy.afterExist", a.RunID, 1)
+	defer gate.Release()
+	type res struct {
+		r   *msg.NewProxyResp
+		err error
+	}
+	chA := make(chan res, 1)
+	go func() {
+		r, err := a.NewProxy(&msg.NewProxy{ProxyName: name, ProxyType: "tcp", RemotePort: portA}, 20*time.Second)
+		chA <- res{r, err}
+	}()
+	if !gate.WaitArrived(10 * time.Second) {
+		run.Inconclusive("exist-add: afterExist gate not reached")
+		return
+	}
+	rb, errB := b.NewProxy(&msg.NewProxy{ProxyName: name, ProxyType: "tcp", RemotePort: portB}, 10*time.Second)
+	gate.Release()
+	ra := <-chA
+	if ra.err != nil || errB != nil {
+		c.Violation("registration-no-reply", "exist-add window: no NewProxyResp (A: %v, B: %v)", ra.err, errB)
+		return
+	}
+	run.Count("exist_add_window_forced", 1)
+	if strings.Contains(ra.r.Error+rb.Error, "port") {
+		run.Inconclusive("exist-add: tcp port busy")
+		return
+	}
+	okA, okB := ra.r.Error == "", rb.Error == ""
+	listening := func(p int) bool {
+		cn, err := net.DialTimeout("tcp", fmt.Sprintf("127.0.0.1:%d", p), 2*time.Second)
+		if err != nil {
+			return false
+		}
+		cn.Close()
+		return true
+	}
+	switch {
+	case okA && okB:
+		c.Violation("name-granted-to-two-sessions", "proxy name %s: session A's registration was parked between the server's name look-up and the entry of the name, session B registered the same name meanwhile, then A went on: both were granted (A at %s accepting=%v, B at %s accepting=%v)",
+			name, ra.r.RemoteAddr, listening(portA), rb.RemoteAddr, listening(portB))
+		return
+	case !okA && !okB:
+		c.Violation("free-name-refused-to-both", "proxy name %s was free: both concurrent registrations were refused (A: %s, B: %s)", name, ra.r.Error, rb.Error)
+		return
+	}
+	winner, wPort, lPort, loser := "A", portA, portB, b
+	if okB {
+		winner, wPort, lPort, loser = "B", portB, portA, a
+	}
+	if id, err := h.AskIdent(fmt.Sprintf("127.0.0.1:%d", wPort), 8*time.Second); err != nil || id != winner+"|"+name {
+		c.Violation("name-owner-does-not-serve", "proxy name %s was granted to session %s at port %d, a user there is answered by %q (err %v)", name, winner, wPort, id, err)
+	}
+	if h.Eventually(3*time.Second, func() bool { return !listening(lPort) }) == false {
+		c.Violation("refused-registration-left-listener", "proxy name %s: the refused registration's port %d still accepts connections", name, lPort)
+	}
+	n := 0
+	for _, pn := range srv.Snapshot().ProxyNames {
+		if pn == name {
+			n++
+		}
+	}
+	if n != 1 {
+		c.Violation("ledger-names", "proxy name %s is listed %d times in the server's name table after one grant and one refusal", name, n)
+	}
+	// the loser can take the name once the winner closed it
+	w := a
+	if okB {
+		w = b
+	}
+	_ = w.CloseProxy(name)
+	if _, err := w.Ping(10 * time.Second); err != nil {
+		run.Inconclusive("close barrier missing")
+		return
+	}
+	if r, err := loser.NewProxy(&msg.NewProxy{ProxyName: name, ProxyType: "tcp", RemotePort: lPort}, 10*time.Second); err != nil || r.Error != "" {
+		c.Violation("name-not-reusable-after-close", "proxy name %s closed by its owner and acknowledged; the other session's registration is refused: %v %+v", name, err, r)
+	}
+	run.Distinct(fmt.Sprintf("exist-add|%s|%d", winner, k%50))
 }
